@@ -25,6 +25,17 @@ type flowOpts struct {
 	// blockStore: a store to an address for which this returns true does not
 	// propagate (the caller accounts for that memory separately)
 	blockStore func(addr ssa.Value) bool
+	// outParams: a call that is not handled by callPolicy and receives a
+	// tainted argument may write it through any pointer argument (receiver
+	// included): json.Unmarshal(b, &x), builder.WriteString(s), io.Copy(&buf, r)
+	outParams bool
+	// onCall is told about every call with its tainted-argument vector
+	onCall func(c ssa.CallInstruction, taintedArgs []bool)
+	// extraTaint returns further values a call taints (out-parameter effects
+	// of summarised callees)
+	extraTaint func(c *ssa.CallCommon, taintedArgs []bool) []ssa.Value
+	// extractPolicy refines which results of a tuple-returning call carry taint
+	extractPolicy func(e *ssa.Extract, tainted func(ssa.Value) bool) (result bool, handled bool)
 }
 
 type flowResult struct {
@@ -160,8 +171,61 @@ func flowForward(fn *ssa.Function, seeds []ssa.Value, o flowOpts) *flowResult {
 							result, handled = o.callPolicy(c, ta)
 						}
 
+						if o.onCall != nil && any {
+							o.onCall(x, ta)
+						}
+
+						if o.extraTaint != nil && any {
+							for _, ev := range o.extraTaint(c, ta) {
+								if mark(ev) {
+									changed = true
+								}
+
+								if mark(addrRoot(ev)) {
+									changed = true
+								}
+							}
+						}
+
 						if !handled {
 							result = any
+
+							if o.outParams && any && !isRepoCallee(c) {
+								for i, a := range args {
+									if ta[i] {
+										continue
+									}
+
+									switch a.Type().Underlying().(type) {
+									case *types.Pointer, *types.Map, *types.Slice:
+										// written through (pointer / reference argument)
+										if _, isParamFunc := a.(*ssa.Function); isParamFunc {
+											continue
+										}
+
+										if mark(a) {
+											changed = true
+										}
+
+										if mark(addrRoot(a)) {
+											changed = true
+										}
+									case *types.Interface:
+										// &x passed as any
+										if mi, ok := a.(*ssa.MakeInterface); ok {
+											if _, isPtr := mi.X.Type().Underlying().(*types.Pointer); isPtr {
+												if mark(mi.X) {
+													changed = true
+												}
+
+												if mark(addrRoot(mi.X)) {
+													changed = true
+												}
+											}
+										}
+									}
+								}
+							}
 						}
 
 						if v, ok := in.(ssa.Value); ok && result {
@@ -192,6 +256,16 @@ func flowForward(fn *ssa.Function, seeds []ssa.Value, o flowOpts) *flowResult {
 										}
 									}
 								}
+							}
+						}
+
+						if ex, isEx := in.(*ssa.Extract); isEx && o.extractPolicy != nil {
+							if res2, handled := o.extractPolicy(ex, func(x ssa.Value) bool { return res.tainted[x] }); handled {
+								if res2 && mark(v) {
+									changed = true
+								}
+
+								continue
 							}
 						}
 
@@ -247,4 +321,11 @@ func namedOf(t types.Type) *types.Named {
 	n, _ := t.(*types.Named)
 
 	return n
+}
+
+// isRepoCallee: the call statically targets a function of the analysed repository.
+func isRepoCallee(c *ssa.CallCommon) bool {
+	f := staticCallee(c)
+
+	return f != nil && f.Pkg() != nil && len(f.Pkg().Path()) >= len(modPath) && f.Pkg().Path()[:len(modPath)] == modPath
 }
